@@ -6,6 +6,8 @@ import os
 from harness.common import coq
 
 VERIF = coq.VERIF
+# properties whose check is complete and registered (in-progress modules are not claimed)
+CLAIMED = ['C02', 'C17']
 PENDING = 'machinery for this property is not completed yet in this development; no check is claimed'
 
 
@@ -14,6 +16,8 @@ def main():
     checks, na = [], []
     for pid in ids:
         try:
+            if pid not in CLAIMED:
+                raise ModuleNotFoundError(pid)
             mod = importlib.import_module('harness.props.' + pid.lower())
         except ModuleNotFoundError:
             na.append({'property_id': pid, 'reason': PENDING})
